@@ -3,7 +3,7 @@ use std::fs::File;
 use std::io::{Read, Seek, SeekFrom, Write};
 use std::path::Path;
 
-use crate::common::{C3Vector, Quaternion};
+use crate::common::{C3Vector, Quaternion, capacity_for};
 use crate::error::{M2Error, Result};
 use crate::version::M2Version;
 
@@ -283,6 +283,18 @@ pub struct AnimSection {
     pub bone_animations: Vec<AnimBoneAnimation>,
 }
 
+/// Read `count` values with `read`.
+///
+/// `count` comes from the file and nothing is reserved from it: the vector grows as
+/// the values arrive, and a count the data cannot back ends in the read error.
+fn read_values<R: Read, T>(
+    reader: &mut R,
+    count: u32,
+    mut read: impl FnMut(&mut R) -> Result<T>,
+) -> Result<Vec<T>> {
+    (0..count).map(|_| read(reader)).collect()
+}
+
 impl AnimSection {
     /// Parse an animation section from a reader
     pub fn parse<R: Read>(reader: &mut R, size: u32) -> Result<Self> {
@@ -294,13 +306,10 @@ impl AnimSection {
         let bone_count = remaining_size / 4; // Each bone animation reference is 4 bytes
 
         // Read bone animation offsets
-        let mut bone_offsets = Vec::with_capacity(bone_count as usize);
-        for _ in 0..bone_count {
-            bone_offsets.push(reader.read_u32_le()?);
-        }
+        let bone_offsets = read_values(reader, bone_count, |r| Ok(r.read_u32_le()?))?;
 
         // Read bone animations
-        let mut bone_animations = Vec::with_capacity(bone_count as usize);
+        let mut bone_animations = Vec::with_capacity(bone_offsets.len());
 
         for &offset in &bone_offsets {
             if offset > 0 {
@@ -314,15 +323,10 @@ impl AnimSection {
                 let translation = if (flags & 0x1) != 0 {
                     let timestamp_count = reader.read_u32_le()?;
 
-                    let mut timestamps = Vec::with_capacity(timestamp_count as usize);
-                    for _ in 0..timestamp_count {
-                        timestamps.push(reader.read_u32_le()?);
-                    }
+                    let timestamps =
+                        read_values(reader, timestamp_count, |r| Ok(r.read_u32_le()?))?;
 
-                    let mut translations = Vec::with_capacity(timestamp_count as usize);
-                    for _ in 0..timestamp_count {
-                        translations.push(C3Vector::parse(reader)?);
-                    }
+                    let translations = read_values(reader, timestamp_count, C3Vector::parse)?;
 
                     Some(AnimTranslation {
                         timestamps,
@@ -336,15 +340,10 @@ impl AnimSection {
                 let rotation = if (flags & 0x2) != 0 {
                     let timestamp_count = reader.read_u32_le()?;
 
-                    let mut timestamps = Vec::with_capacity(timestamp_count as usize);
-                    for _ in 0..timestamp_count {
-                        timestamps.push(reader.read_u32_le()?);
-                    }
+                    let timestamps =
+                        read_values(reader, timestamp_count, |r| Ok(r.read_u32_le()?))?;
 
-                    let mut rotations = Vec::with_capacity(timestamp_count as usize);
-                    for _ in 0..timestamp_count {
-                        rotations.push(Quaternion::parse(reader)?);
-                    }
+                    let rotations = read_values(reader, timestamp_count, Quaternion::parse)?;
 
                     Some(AnimRotation {
                         timestamps,
@@ -358,15 +357,10 @@ impl AnimSection {
                 let scaling = if (flags & 0x4) != 0 {
                     let timestamp_count = reader.read_u32_le()?;
 
-                    let mut timestamps = Vec::with_capacity(timestamp_count as usize);
-                    for _ in 0..timestamp_count {
-                        timestamps.push(reader.read_u32_le()?);
-                    }
+                    let timestamps =
+                        read_values(reader, timestamp_count, |r| Ok(r.read_u32_le()?))?;
 
-                    let mut scalings = Vec::with_capacity(timestamp_count as usize);
-                    for _ in 0..timestamp_count {
-                        scalings.push(C3Vector::parse(reader)?);
-                    }
+                    let scalings = read_values(reader, timestamp_count, C3Vector::parse)?;
 
                     Some(AnimScaling {
                         timestamps,
@@ -768,7 +762,9 @@ impl AnimParser {
         // Parse animation entries
         reader.seek(SeekFrom::Start(header.anim_entry_offset as u64))?;
 
-        let mut entries = Vec::with_capacity(header.id_count as usize);
+        // An entry is three u32
+        let capacity = capacity_for(reader, header.id_count as usize, 12)?;
+        let mut entries = Vec::with_capacity(capacity);
         for _ in 0..header.id_count {
             entries.push(AnimEntry::parse(reader)?);
         }
